@@ -68,7 +68,8 @@ class P(vlib.Prop):
             "Second harness (race_test.go): 24000 race rounds (fresh collector, 2-8 goroutines released by a spin barrier call "
             "Shutdown() at once; one model case per k: k x LShutCheck then k x LShutClose) and 160 free-running collectors "
             "(gates open) hit by SIGHUPs and storms of concurrent Shutdown() at random instants until Run returns; direct oracle: "
-            "no panic, no blocked call, channel closed, Run returns, event-log oracle. Independently of the model, the decidable clause "
+            "no panic, no blocked call, channel closed, Run returns, event-log oracle; log-stress stream: 24 collectors with the real logging "
+            "cores, 4 provider goroutines logging through the collector's logger across start-up, 6-15 SIGHUP reloads and shutdown. Independently of the model, the decidable clause "
             "checker ObsCheck.obs_verdict (proved sound in ObsSound.v) is evaluated in Coq on the observed log of every case.")
     trusted_base = [
         "Coq 8.16.1 kernel + vm_compute (coqc); no axioms (Print Assumptions: closed under the global context)",
